@@ -2,7 +2,7 @@
 From BBF Require Import Base.Prelude Base.Names Base.Bits Spec.Sem
      Model.Expr Model.Table Model.LibBdd Model.Bdd
      Proofs.ExprProofs Proofs.TableProofs Proofs.QuantProofs Proofs.NfProofs Proofs.DdProofs Proofs.BddProofs Proofs.BddOps
-     Proofs.ConvProofs Proofs.RenderProofs Proofs.EnumProofs.
+     Proofs.ConvProofs Proofs.RenderProofs Proofs.EnumProofs Proofs.DualityProofs.
 From Coq Require Import Sorting.Permutation.
 Theorem C07_expr_derivative_sem : forall vars e v, sem v (e_derivative e vars) = elim_fn xorb vars (fun w => sem w e) v.
 Proof. exact e_derivative_sem. Qed.
@@ -49,3 +49,9 @@ Print Assumptions C07_independent_variable.
 
 Example C07_example : forall v, sem v (e_derivative (Or [Not (Lit [98%N]); Lit [100%N]]) [[100%N]]) = v [98%N].
 Proof. intros v. rewrite e_derivative_sem. simpl. unfold upd. simpl. destruct (v [98%N]); reflexivity. Qed.
+
+(* a negation of the function does not change its derivative (one variable or more) *)
+Theorem C07_derivative_of_negation : forall x r f v,
+  elim_fn xorb (x :: r) (fun w => negb (f w)) v = elim_fn xorb (x :: r) f v.
+Proof. exact derivative_of_negation. Qed.
+Print Assumptions C07_derivative_of_negation.
